@@ -338,7 +338,7 @@ def check_history(seed, shard):
 
 
 def plan(tier, seed):
-    n = 3 if tier == "quick" else 55
+    n = 3 if tier == "quick" else 300
     return [{"n": n, "seed": seed * 373587883 + i * 1000} for i in range(16)]
 
 
